@@ -575,7 +575,11 @@ func Drive(id, tier string) int {
 	var brokenWhy []string
 	if len(m.HarnessBugs) > 0 {
 		broken = true
-		brokenWhy = append(brokenWhy, "harness bugs: "+clip(strings.Join(m.HarnessBugs, "\n---\n"), 6000))
+		hb := m.HarnessBugs
+		if len(hb) > 2 {
+			hb = hb[:2]
+		}
+		brokenWhy = append(brokenWhy, fmt.Sprintf("%d harness bug reports, first: %s", len(m.HarnessBugs), clip(strings.Join(hb, "\n---\n"), 3000)))
 	}
 	if mon.MinEvaluations != nil && m.Evaluations < mon.MinEvaluations(tier) {
 		broken = true
